@@ -399,7 +399,14 @@ class ManifestContext:
                         f'encryption key {kid.hex} of stream {stream.directory} has been deleted')
             dc = DrmContext(stream, keys, self.options)
             adp.drm = dc.manifest_context
+            # cenc:default_KID is the default KID of the tracks (tenc
+            # default_KID), not whichever key the database returns first
             adp.default_kid = list(keys.keys())[0]
+            for rep in adp.representations:
+                rep_kid = getattr(rep, 'default_kid', None)
+                if isinstance(rep_kid, str) and rep_kid.lower() in keys:
+                    adp.default_kid = rep_kid.lower()
+                    break
             try:
                 # the template asks for this data while it is rendered. Find
                 # out now if it can not be produced (e.g. a license URL whose
